@@ -1,10 +1,10 @@
 #!/bin/bash
-# tools/seedsweep.sh "<seeds>" [tier] : every claimed check at several VERIF_SEED values on the unchanged tree; any rc != 0 is printed
+# tools/seedsweep.sh "<seeds>" [tier] ["<properties>"] : every claimed check at several VERIF_SEED values on the unchanged tree; any rc != 0 is printed
 cd "$(dirname "$0")/.."
-seeds=${1:-"2 3 4 5 6 7 8 9 10 11"}; tier=${2:-quick}
+seeds=${1:-"2 3 4 5 6 7 8 9 10 11"}; tier=${2:-quick}; props=$3
 bad=0
 for s in $seeds; do
-  for p in $(/venv/bin/python -c "import json; print(' '.join(c['property_id'] for c in json.load(open('MANIFEST.json'))['checks']))"); do
+  for p in ${props:-$(/venv/bin/python -c "import json; print(' '.join(c['property_id'] for c in json.load(open('MANIFEST.json'))['checks']))")}; do
     out=$(VERIF_SEED=$s ./check $p --tier $tier --no-evidence 2>&1); rc=$?
     if [ $rc -ne 0 ]; then bad=$((bad+1)); echo "SEED=$s $p rc=$rc"; echo "$out" | grep -E "problem|VIOLATION|HARNESS|Error" | head -5; 
       for f in $(echo "$out" | grep -o "replay=[^ ]*" | cut -d= -f2); do mkdir -p sweep_failures; cp $f sweep_failures/ 2>/dev/null; done
